@@ -396,6 +396,12 @@ def check_accept(case):
                 keep = ref.layout(t)[4]
                 if keep is not None and ref.layout(t)[0] and not keep.any():
                     op = "empty_space_in_a_period"
+            if op == case["op"] and stage != "solve":
+                # a model whose transitions lead into filter-excluded states (decided by the NumPy
+                # reference from the specification alone) is its own shape, whatever operator was
+                # applied on top of it
+                if ref.leaves_space():
+                    op = "transition_into_excluded_state"
         except Exception:  # noqa: BLE001
             pass
         return [f"accepted specification (widening operator {case['op']}, shape {op}) failed in {stage}: {e}"], f"accepted_crash:{op}:{stage}", spec
